@@ -157,9 +157,11 @@ def _handle_LinkEvent (event):
   # When links change, update spanning tree
 
   (dp1,p1),(dp2,p2) = event.link.end
-  if _prev[dp1][p1] is False:
+  if event.removed and _prev[dp1][p1] is False:
     if _prev[dp2][p2] is False:
-      # We're disabling this link; who cares if it's up or down?
+      # We're disabling this link; who cares if it's down?
+      # (If it's coming up, it may be the missing direction of a link
+      #  we have only seen one way so far, so we do care.)
       #log.debug("Ignoring link status for %s", event.link)
       return
 
@@ -186,7 +188,10 @@ def _update_tree (force_dpid = None):
   # Now modify ports as needed
   try:
     change_count = 0
-    for sw, ports in tree.items():
+    # (Also visit switches which have no tree links at all: their
+    #  inter-switch ports must not flood either)
+    for sw in set(tree.keys()).union(core.openflow.connections.dpids):
+      ports = tree[sw]
       con = core.openflow.getConnection(sw)
       if con is None: continue # Must have disconnected
       if con.connect_time is None: continue # Not fully connected
